@@ -47,10 +47,39 @@ def corpus(tier, seed):
     return inputs
 
 
+def score_rules(res, traces, verdicts, byid):
+    """C01 also quantifies over Rating / Limited / Cumulative / Approval / BlocPlurality: a slice of the C05 corpus (accepted profiles only
+    matter here) is validated by RatingTrace and the clauses that speak to C01 are kept: a valid profile rejected or an exception of the
+    wrong class, a winner set that is not m candidates, rounds that do not partition the candidates"""
+    from . import c05
+    from ..calltrace import judge_calls
+    from ..common import fork_pool
+    import json as _json, os as _os
+    if res.replayed:
+        if not getattr(res, "replay_score_input", None):
+            return
+        inputs = [res.replay_score_input]
+    else:
+        inputs = c05.corpus(res.tier, res.seed)
+        rng = random.Random(151 + res.seed)
+        inputs = rng.sample(inputs, min(len(inputs), 1200 if res.tier == "quick" else 20000))
+    with fork_pool(16) as pool:
+        tr = [t for ts in pool.imap_unordered(c05.work, inputs, chunksize=16) for t in ts]
+    tr.sort(key=lambda t: _json.dumps({k: v for k, v in t.items() if not k.startswith("_")}, sort_keys=True))
+
+    def sig(t, rec):
+        cl = rec["clause"]
+        if cl in ("ValidProfileRejected", "Winners", "Rounds") or cl.startswith("Error:"):
+            return "%s:%s" % (t["cfg"]["rule"], cl)
+        return None         # limits, totals, tiebreak content: C05's and C10's matter
+    judge_calls(res, PID, "RatingTrace", tr, sig_of=sig, what="score-ballot election: clause of C01")
+    res.notes["score_rule_elections"] = len(tr)
+
+
 def run(tier, seed, replay=None):
     return EL.standard_run(
         PID, tier, seed, replay, MC, corpus, nontrivial=lambda t: len(t["events"]) >= 1,
-        repo_test_rules=EL.RANKING_ALL, wide={},
+        repo_test_rules=EL.RANKING_ALL, wide={}, extra=score_rules,
         role3={"quick": [dict(family="tiered", max_ballots=2, max_w=2), dict(family="veto", max_ballots=2, max_w=1)],
                "thorough": [dict(family=f, max_ballots=2, max_w=1) for f in FAMILIES] + [dict(family="veto", max_ballots=2, max_w=2)]},
         rule_text="role 1: TLC exhaustive per rule family over every profile of <=K distinct rankings of 3 candidates x every "
